@@ -1020,7 +1020,8 @@ func (r *transformingReader) Read(data []byte) (n int, err error) {
 			// If this is the first request message, the error is EOF, and there's a body
 			// preparer, we'll allow it and let the preparer produce a message from zero
 			// request bytes.
-			if !r.consumedFirst && errors.Is(err, io.EOF) && r.rw.op.clientReqNeedsPrep {
+			if !r.consumedFirst && errors.Is(err, io.EOF) && (r.rw.op.clientReqNeedsPrep || r.rw.op.clientEnveloper == nil) {
+				// (without envelopes the body is the message, so an empty body is an empty message)
 				r.msg.markReady()
 			} else {
 				r.err = err
